@@ -1,6 +1,7 @@
 (* C40 — models used to tie the SDK/program comparison down:
-   the `gmsol_model::Pool` operations of the store's Pool type (program: overrides checked_cancel_amounts;
-   SDK: inherits the trait's default, which goes through signed deltas), and the order-fee discount formula
+   the `gmsol_model::Pool` operations of the store's Pool type (program and — since fix
+   c40-sdk-pool-cancel-override — SDK override checked_cancel_amounts with the same unsigned netting; the
+   trait's default, which goes through signed deltas, is kept as `cancel_default`), and the order-fee discount formula
    (identical text on both sides).  Definitions only. *)
 From GV Require Import lib.Base C01.Model.
 From Coq Require Import String.
@@ -35,8 +36,15 @@ Definition cancel_prog (byte l s : Z) : pres :=
   if pure byte then RPool byte (l mod 2) s
   else if s <=? l then RPool byte (l - s) 0 else RPool byte 0 (s - l).
 
-(* SDK: trait default — min(l, s) is negated as an i128 on both sides *)
+(* SDK: Pool::checked_cancel_amounts override in crates/programs/src/model/pool.rs — written out again from the
+   SDK source (pure: `&= 1`; otherwise its own `cancel_amounts`: the larger side keeps the difference) *)
 Definition cancel_sdk (byte l s : Z) : pres :=
+  if pure byte then RPool byte (l mod 2) s
+  else if s <=? l then RPool byte (Z.abs (l - s)) 0 else RPool byte 0 (Z.abs (l - s)).
+
+(* the trait's DEFAULT (crates/model/src/pool/mod.rs): min(l, s) is negated as an i128 on both sides.
+   No Pool type of the store / SDK uses it any more; kept to state why the override is needed. *)
+Definition cancel_default (byte l s : Z) : pres :=
   if pure byte then cancel_prog byte l s
   else if 2 ^ 127 - 1 <? Z.min l s then RErr else cancel_prog byte l s.
 
